@@ -29,9 +29,37 @@ pub enum FangDesc {
     Action(String),
     /// logs `!id` and answers 403 without calling the inner proc
     Block(String),
+    /// the built-in CORS fang
+    Cors(CorsDesc),
+}
+
+#[derive(Clone, Debug, Default, PartialEq, Eq, Hash, Serialize, Deserialize)]
+pub struct CorsDesc {
+    pub origin: String,
+    pub credentials: bool,
+    pub allow_headers: Vec<String>,
+    pub expose_headers: Vec<String>,
+    pub max_age: Option<u32>,
+}
+impl CorsDesc {
+    pub fn build(&self) -> ohkami::fang::CORS {
+        let mut c = ohkami::fang::CORS::new(leak(&self.origin));
+        if self.credentials { c = c.AllowCredentials() }
+        let l = |v: &Vec<String>, i: usize| leak(&v[i]);
+        c = match self.allow_headers.len() {
+            0 => c, 1 => c.AllowHeaders([l(&self.allow_headers, 0)]), 2 => c.AllowHeaders([l(&self.allow_headers, 0), l(&self.allow_headers, 1)]),
+            n => panic!("appgen: {n} allow-headers not supported by the generator"),
+        };
+        c = match self.expose_headers.len() {
+            0 => c, 1 => c.ExposeHeaders([l(&self.expose_headers, 0)]), 2 => c.ExposeHeaders([l(&self.expose_headers, 0), l(&self.expose_headers, 1)]),
+            n => panic!("appgen: {n} expose-headers not supported by the generator"),
+        };
+        if let Some(m) = self.max_age { c = c.MaxAge(m) }
+        c
+    }
 }
 impl FangDesc {
-    pub fn id(&self) -> &str { match self { FangDesc::Trace(i) | FangDesc::Action(i) | FangDesc::Block(i) => i } }
+    pub fn id(&self) -> &str { match self { FangDesc::Trace(i) | FangDesc::Action(i) | FangDesc::Block(i) => i, FangDesc::Cors(_) => "cors" } }
     pub fn blocks(&self) -> bool { matches!(self, FangDesc::Block(_)) }
 }
 
@@ -88,6 +116,7 @@ impl<I: FangProc> FangProc for AnyProc<I> {
                 trace_push(format!("!{id}"));
                 Response::Forbidden()
             }
+            FangDesc::Cors(_) => unreachable!("CORS is chained through DynFang::Cors"),
         }
     }
 }
@@ -109,10 +138,11 @@ impl ohkami::fang::FangAction for ActFang {
 
 /// A fang that is either kind at run time, so that tuples stay homogeneous.
 #[derive(Clone)]
-pub enum DynFang { Raw(AnyFang), Act(ActFang) }
+pub enum DynFang { Raw(AnyFang), Act(ActFang), Cors(ohkami::fang::CORS) }
 pub enum DynProc<I: FangProc> {
     Raw(AnyProc<I>),
     Act(<ActFang as Fang<I>>::Proc),
+    Cors(<ohkami::fang::CORS as Fang<I>>::Proc),
 }
 impl<I: FangProc> Fang<I> for DynFang {
     type Proc = DynProc<I>;
@@ -120,6 +150,7 @@ impl<I: FangProc> Fang<I> for DynFang {
         match self {
             DynFang::Raw(f) => DynProc::Raw(f.chain(inner)),
             DynFang::Act(f) => DynProc::Act(<ActFang as Fang<I>>::chain(f, inner)),
+            DynFang::Cors(f) => DynProc::Cors(<ohkami::fang::CORS as Fang<I>>::chain(f, inner)),
         }
     }
 }
@@ -128,12 +159,14 @@ impl<I: FangProc> FangProc for DynProc<I> {
         match self {
             DynProc::Raw(p) => p.bite(req).await,
             DynProc::Act(p) => p.bite(req).await,
+            DynProc::Cors(p) => p.bite(req).await,
         }
     }
 }
 fn dynfang(d: &FangDesc) -> DynFang {
     match d {
         FangDesc::Action(_) => DynFang::Act(ActFang(d.clone())),
+        FangDesc::Cors(c) => DynFang::Cors(c.build()),
         _ => DynFang::Raw(AnyFang(d.clone())),
     }
 }
